@@ -235,6 +235,43 @@ fn scn_configs(o: &Opts, tr: &mut Tr, prop: &str) {
             }
         }
     }
+    if prop == "C11" {
+        // flush points (call boundaries) followed by data that also occurs 1..7 bytes beyond the
+        // declared window: whatever the match finder's bookkeeping looks like when a call resumes,
+        // the first matches of the call must not reach past the window
+        let mut k = 0usize;
+        for wb in 9..=14u8 {
+            for lvl in [1u8, 2, 6] {
+                for st in [0usize, 1] {
+                    for fi in [2usize, 1, 7] {
+                        k += 1;
+                        if !o.thorough && (k + o.seed as usize) % 3 != 0 { continue; }
+                        let w = 1usize << wb;
+                        // a 48-letter alphabet: blocks compress (no stored-block fallback, which would
+                        // erase the matches) while repeated trigrams stay rare
+                        let mut v: Vec<u8> = (0..(w + 800 + r.gen_range(0..300))).map(|_| 40 + r.gen_range(0..48u8)).collect();
+                        let big = 1usize << 20;
+                        let mut script = vec![(v.len(), big, fi)];
+                        for j in 0..14usize {
+                            let delta = [1usize, 2, 3, 4, 0, 5, 7][(j + k) % 7];
+                            let src = v.len() - (w + delta);
+                            for i in 0..12 {
+                                let b = v[src + i];
+                                v.push(b);
+                            }
+                            let fill = 600 + r.gen_range(0..800);
+                            for _ in 0..fill { v.push(40 + r.gen_range(0..48u8)); }
+                            script.push((12 + fill, big, fi));
+                        }
+                        let cfg = Cfg { zlib: true, level: lvl, strat: st, wbits: wb, api: "params" };
+                        let sch = Sched { chunk_pat: "all".into(), outs: vec![big], flush_pct: 0, flush_set: vec![], callback: false, max_points: 0 };
+                        comp::SCRIPT.with(|s| *s.borrow_mut() = script);
+                        stream_comp_case(tr, &format!("winedge-w{}-l{}-{}-{}", wb, lvl, STRATS[st].0, comp::FLUSHES[fi].0), prop, &v, &cfg, &sch, &mut r, "winedge");
+                    }
+                }
+            }
+        }
+    }
     if prop == "C09" {
         // window-bits values outside 8..15 are clamped, never a reason to drop or garble the framing
         for wb in [0u8, 1, 2, 7, 16, 17, 24, 31, 32, 100, 255] {
